@@ -2923,16 +2923,19 @@ where
                     peer_score.graft(&peer_id, topic.clone());
                 }
 
-                // inform the handler of the peer being added to the mesh
-                // If the peer did not previously exist in any mesh, inform the handler
-                peer_added_to_mesh(
-                    peer_id,
-                    vec![topic],
-                    &self.mesh,
-                    &mut self.events,
-                    &self.connected_peers,
-                );
             }
+
+            // inform the handler of the peer being added to the mesh
+            // If the peer did not previously exist in any mesh, inform the handler. The peer is
+            // already a member of all the meshes in `topics`, hence they are passed together.
+            peer_added_to_mesh(
+                peer_id,
+                topics.iter().collect(),
+                &self.mesh,
+                &mut self.events,
+                &self.connected_peers,
+            );
+
             let rpc_msgs = topics.iter().map(|topic_hash| {
                 RpcOut::Graft(Graft {
                     topic_hash: topic_hash.clone(),
